@@ -57,7 +57,7 @@ def run_tlc(module, cfg, env_extra=None, workers=16, timeout=1800, extra_args=()
     env = dict(os.environ)
     if env_extra:
         env.update(env_extra)
-    jopts = ["-Xmx" + heap, "-Xss64m", "-XX:+UseParallelGC"]
+    jopts = ["-Xmx" + heap, "-Xss64m", "-XX:+UseParallelGC", "-Djava.io.tmpdir=" + meta]      # TLC unpacks standard modules there
     if deque:
         jopts.append("-Dtlc2.tool.queue.IStateQueue=StateDeque")
     cmd = ["java"] + jopts + ["-cp", JAR + ":" + "/opt/veriftools/tla/CommunityModules-deps.jar", "tlc2.TLC",
